@@ -15,6 +15,9 @@ spec["str_conds"] = [ [file, function, anchor-regex, gallina-name, [string param
     like conds, but the expression may call strncmp(s1, s2, LEN) with s1, s2 among the string parameters and LEN an
     integer expression that may contain strlen(s); they become H4.ANLang.strncmp / strlen on byte lists
                                                    ->  Definition <name> (strings : list Z) (ints : Z) : Z
+spec["entry_fields"] = [ [file, function, anchor-regex, gallina-name] ]
+    the anchor (exactly one match in the function body) captures the ANentry field that is read: annref / elmtag /
+    elmref / ann_id            ->  Definition <name> : Z := 0 / 1 / 2 / 3
 spec["conds"] = [ [file, function, anchor-regex, gallina-name, [params], {c-subexpr: identifier}], ... ]
     the anchor must match exactly once in the function body; group 1 is a C integer/boolean expression
                                                    ->  Definition <name> (params : Z) : Z      (truth value 0/1)
@@ -134,6 +137,16 @@ def emit(repo, spec, H):
         out.append("(* %s: %s: %s *)" % (f, fn, _c(cexpr)))
         out.append("Definition %s %s %s : Z := %s." % (name, " ".join("(%s : list Z)" % p_ for p_ in sparams),
                                                      " ".join("(%s : Z)" % p_ for p_ in iparams), term))
+    for f, fn, anchor, name in spec.get("entry_fields", []):
+        body = H.func_body(H.src(repo, f), fn)
+        ms = list(re.finditer(anchor, body))
+        if len(ms) != 1:
+            raise ValueError("%s:%s: anchor %r matched %d times (need exactly 1)" % (f, fn, anchor, len(ms)))
+        fields = ["annref", "elmtag", "elmref", "ann_id"]
+        if ms[0].group(1) not in fields:
+            raise ValueError("%s:%s: unknown ANentry field %s" % (f, fn, ms[0].group(1)))
+        out.append("(* %s: %s: %s *)" % (f, fn, _c(" ".join(ms[0].group(0).split()))))
+        out.append("Definition %s : Z := %d." % (name, fields.index(ms[0].group(1))))
     for f, fn, anchor, name, params, subst in spec.get("conds", []):
         body = H.func_body(H.src(repo, f), fn)
         ms = list(re.finditer(anchor, body))
